@@ -30,8 +30,11 @@ import (
 	"go/types"
 	"os"
 	"reflect"
+	"regexp"
 	"sort"
 	"strings"
+
+	"golang.org/x/tools/go/ast/astutil"
 )
 
 type inlineHelper struct {
@@ -49,6 +52,7 @@ type inlineHelper struct {
 	allResults bool // every return statement of the body carries the full result list
 	results    int
 	name       string
+	assigned   map[int]bool // parameter index is assigned / incremented / address-taken in the body: always bound to a fresh local
 }
 
 type inlineSite struct {
@@ -57,6 +61,7 @@ type inlineSite struct {
 	kind    string // stmt | go | value | expr
 	helper  *inlineHelper
 	conv    []bool // argument i is an untyped constant or nil: wrap it in a conversion to the parameter's type
+	bind    []bool // argument i is not side-effect free: it is evaluated once into a fresh local in front of the expansion
 }
 
 // simpleArg: evaluating the argument has no effect and may be repeated or dropped.
@@ -114,7 +119,7 @@ func analyseHelper(c *Ctx, p *packagesPkg, name string, ftype *ast.FuncType, rec
 		return nil
 	}
 	off := func(pos token.Pos) int { return c.Fset.Position(pos).Offset }
-	h := &inlineHelper{file: c.Fset.Position(body.Pos()).Filename, bodyLbrace: off(body.Lbrace), bodyEnd: off(body.Rbrace), isLit: isLit, recvOff: -1, paramUse: map[int]int{}, localUse: map[int]string{}, name: name}
+	h := &inlineHelper{file: c.Fset.Position(body.Pos()).Filename, bodyLbrace: off(body.Lbrace), bodyEnd: off(body.Rbrace), isLit: isLit, recvOff: -1, paramUse: map[int]int{}, localUse: map[int]string{}, name: name, assigned: map[int]bool{}}
 	paramIdx := map[types.Object]int{}
 	if recv != nil {
 		if len(recv.List) != 1 || len(recv.List[0].Names) != 1 {
@@ -181,22 +186,34 @@ func analyseHelper(c *Ctx, p *packagesPkg, name string, ftype *ast.FuncType, rec
 		case *ast.AssignStmt:
 			for _, l := range t.Lhs {
 				if id, isId := ast.Unparen(l).(*ast.Ident); isId {
-					if _, isParam := paramIdx[info.Uses[id]]; isParam {
-						ok = false // parameter re-assigned
+					if pi, isParam := paramIdx[info.Uses[id]]; isParam {
+						if pi < 0 {
+							ok = false // receiver re-assigned
+						} else {
+							h.assigned[pi] = true // the parameter is a local of the helper: bound to a fresh local at the call site
+						}
 					}
 				}
 			}
 		case *ast.IncDecStmt:
 			if id, isId := ast.Unparen(t.X).(*ast.Ident); isId {
-				if _, isParam := paramIdx[info.Uses[id]]; isParam {
-					ok = false
+				if pi, isParam := paramIdx[info.Uses[id]]; isParam {
+					if pi < 0 {
+						ok = false
+					} else {
+						h.assigned[pi] = true
+					}
 				}
 			}
 		case *ast.UnaryExpr:
 			if t.Op == token.AND {
 				if id, isId := ast.Unparen(t.X).(*ast.Ident); isId {
-					if _, isParam := paramIdx[info.Uses[id]]; isParam {
-						ok = false
+					if pi, isParam := paramIdx[info.Uses[id]]; isParam {
+						if pi < 0 {
+							ok = false
+						} else {
+							h.assigned[pi] = true
+						}
 					}
 				}
 			}
@@ -403,6 +420,12 @@ func planInlining(c *Ctx) []inlineSite {
 				if obj == nil {
 					continue
 				}
+				// the view undoes extract-method: only functions that the pinned tree does not have are
+				// expanded. Helpers of the pinned tree are part of the shape the rules were written against
+				// (many are recognised by name where they are called).
+				if fo, isF := obj.(*types.Func); isF && frozenHasFunc(p.PkgPath, funcObjDisplay(fo)) {
+					continue
+				}
 				if h := analyseHelper(c, p, fd.Name.Name, fd.Type, fd.Recv, fd.Body, false); h != nil {
 					helpers[obj] = h
 					helperBody[obj] = fd.Body
@@ -442,9 +465,16 @@ func planInlining(c *Ctx) []inlineSite {
 					}
 					return true
 				})
+				encl := ""
+				if fo, isF := info.Defs[fd.Name].(*types.Func); isF {
+					encl = funcObjDisplay(fo)
+				}
 				for o, fl := range lits {
 					if assigns[o] != 1 {
 						continue
+					}
+					if frozenHasLocal(p.PkgPath, encl, o.Name()) {
+						continue // a closure the pinned tree already has
 					}
 					if h := analyseHelper(c, p, o.Name(), fl.Type, nil, fl.Body, true); h != nil {
 						helpers[o] = h
@@ -505,9 +535,12 @@ func planInlining(c *Ctx) []inlineSite {
 						return true
 					}
 				}
-				for _, a := range call.Args {
-					if !simpleArg(info, a, 0) {
-						return true
+				bind := make([]bool, len(call.Args))
+				anyBind := false
+				for i, a := range call.Args {
+					if !simpleArg(info, a, 0) || h.assigned[i] {
+						bind[i] = true
+						anyBind = true
 					}
 				}
 				// context
@@ -586,10 +619,70 @@ func planInlining(c *Ctx) []inlineSite {
 						}
 					}
 				}
-				if kind == "" && h.singleExpr {
+				if kind == "" && h.singleExpr && !anyBind {
 					kind = "expr"
 				}
+				if kind == "" && h.results == 1 {
+					// the call sits inside a larger expression of a plain statement: evaluate it into a fresh
+					// local in front of the statement (the next round expands that assignment). Admissible
+					// when nothing else in the statement has an effect or is evaluated conditionally.
+					var host ast.Stmt
+					okHost := true
+					for i := len(stack) - 2; i >= 0 && host == nil; i-- {
+						switch t := stack[i].(type) {
+						case *ast.FuncLit:
+							okHost = false
+						case *ast.BinaryExpr:
+							if t.Op == token.LAND || t.Op == token.LOR {
+								okHost = false
+							}
+						case *ast.ExprStmt, *ast.AssignStmt, *ast.ReturnStmt:
+							host = t.(ast.Stmt)
+						case ast.Stmt:
+							okHost = false
+						}
+						if !okHost {
+							break
+						}
+					}
+					if okHost && host != nil && inList(host) {
+						pure := true
+						ancestors := map[ast.Node]bool{}
+						for _, a := range stack {
+							ancestors[a] = true
+						}
+						ast.Inspect(host, func(m ast.Node) bool {
+							if ce, isC := m.(*ast.CallExpr); isC && ce != call && !ancestors[ce] {
+								nm := calleeName(info, ce)
+								if !(nm == "builtin.append" || nm == "builtin.len" || nm == "builtin.cap" || isConversion(info, ce)) {
+									pure = false
+								}
+							}
+							switch m.(type) {
+							case *ast.FuncLit, *ast.UnaryExpr:
+								if ue, isU := m.(*ast.UnaryExpr); isU && ue.Op != token.ARROW {
+									return true
+								}
+								pure = false
+							}
+							return true
+						})
+						if as, isAs := host.(*ast.AssignStmt); isAs && as.Tok != token.ASSIGN && as.Tok != token.DEFINE {
+							pure = false
+						}
+						if pure {
+							kind = "hoist"
+						}
+					}
+				}
 				if kind == "" {
+					return true
+				}
+				if kind == "hoist" {
+					sites = append(sites, inlineSite{file: fname, callOff: c.Fset.Position(call.Pos()).Offset, kind: kind, helper: h})
+					return true
+				}
+				if anyBind && kind == "go" && recvExpr != nil {
 					return true
 				}
 				// names must mean the same at the call site
@@ -651,7 +744,7 @@ func planInlining(c *Ctx) []inlineSite {
 						conv[i] = true
 					}
 				}
-				sites = append(sites, inlineSite{file: fname, callOff: c.Fset.Position(call.Pos()).Offset, kind: kind, helper: h, conv: conv})
+				sites = append(sites, inlineSite{file: fname, callOff: c.Fset.Position(call.Pos()).Offset, kind: kind, helper: h, conv: conv, bind: bind})
 				return true
 			})
 		}
@@ -839,10 +932,35 @@ func expandSite(s inlineSite, files map[string]*parsedFile) bool {
 			}
 		}
 	}
+	inlineCounter++
+	suffix := fmt.Sprintf("_inl%d", inlineCounter)
+	// arguments with effects are evaluated once, in order, into fresh locals in front of the expansion
+	var bound []ast.Stmt
+	tmpName := map[int]string{}
+	var pnames []string
+	if hft != nil && hft.Params != nil {
+		for _, f := range hft.Params.List {
+			for _, id := range f.Names {
+				pnames = append(pnames, id.Name)
+			}
+		}
+	}
+	for i := range args {
+		if i < len(s.bind) && s.bind[i] && i < len(pnames) {
+			nm := pnames[i] + "_arg" + suffix
+			tmpName[i] = nm
+			bound = append(bound, &ast.AssignStmt{Lhs: []ast.Expr{ast.NewIdent(nm)}, Tok: token.DEFINE, Rhs: []ast.Expr{cloneAST(args[i], cf.fset, nil, nil).(ast.Expr)}})
+			// keep the local used even when the helper ignores the parameter
+			bound = append(bound, &ast.AssignStmt{Lhs: []ast.Expr{ast.NewIdent("_")}, Tok: token.ASSIGN, Rhs: []ast.Expr{ast.NewIdent(nm)}})
+		}
+	}
 	subst := func(off int) ast.Expr {
 		idx, ok := s.helper.paramUse[off]
 		if !ok {
 			return nil
+		}
+		if nm, isTmp := tmpName[idx]; isTmp {
+			return ast.NewIdent(nm)
 		}
 		var a ast.Expr
 		if idx == -1 {
@@ -861,8 +979,6 @@ func expandSite(s inlineSite, files map[string]*parsedFile) bool {
 		// (&x).f reads better (and is what rules look for) as x.f; leave to the printer otherwise
 		return paren(c)
 	}
-	inlineCounter++
-	suffix := fmt.Sprintf("_inl%d", inlineCounter)
 	renameLocals := func(off int) string {
 		if nm, ok := s.helper.localUse[off]; ok && nm != "_" {
 			return nm + suffix
@@ -883,6 +999,9 @@ func expandSite(s inlineSite, files map[string]*parsedFile) bool {
 		})
 	}
 	replaceStmt := func(old ast.Stmt, repl []ast.Stmt) bool {
+		if len(bound) > 0 {
+			repl = append(append([]ast.Stmt{}, bound...), repl...)
+		}
 		done := false
 		ast.Inspect(cf.file, func(n ast.Node) bool {
 			if done {
@@ -942,6 +1061,73 @@ func expandSite(s inlineSite, files map[string]*parsedFile) bool {
 		keepClosureVarUsed(hf, hn)
 	}
 	switch s.kind {
+	case "hoist":
+		// innermost statement of a statement list that contains the call
+		var host ast.Stmt
+		ast.Inspect(cf.file, func(n ast.Node) bool {
+			var list []ast.Stmt
+			switch t := n.(type) {
+			case *ast.BlockStmt:
+				list = t.List
+			case *ast.CaseClause:
+				list = t.Body
+			case *ast.CommClause:
+				list = t.Body
+			}
+			for _, st := range list {
+				if st.Pos() <= call.Pos() && call.End() <= st.End() {
+					host = st
+				}
+			}
+			return true
+		})
+		if host == nil {
+			return false
+		}
+		switch host.(type) {
+		case *ast.ExprStmt, *ast.AssignStmt, *ast.ReturnStmt:
+		default:
+			return false
+		}
+		tmp := ast.NewIdent("hoisted" + suffix)
+		var found bool
+		var rewrite func(v reflect.Value)
+		rewrite = func(v reflect.Value) {
+			if found {
+				return
+			}
+			switch v.Kind() {
+			case reflect.Ptr:
+				if v.IsNil() || v.Type() == astObjType || v.Type() == astScopeType {
+					return
+				}
+				rewrite(v.Elem())
+			case reflect.Interface:
+				if v.IsNil() {
+					return
+				}
+				if v.Type() == exprIface && v.Interface() == ast.Expr(call) && v.CanSet() {
+					v.Set(reflect.ValueOf(tmp).Convert(exprIface))
+					found = true
+					return
+				}
+				rewrite(v.Elem())
+			case reflect.Struct:
+				for i := 0; i < v.NumField(); i++ {
+					rewrite(v.Field(i))
+				}
+			case reflect.Slice:
+				for i := 0; i < v.Len(); i++ {
+					rewrite(v.Index(i))
+				}
+			}
+		}
+		rewrite(reflect.ValueOf(host))
+		if !found {
+			return false
+		}
+		bound = nil
+		return replaceStmt(host, []ast.Stmt{&ast.AssignStmt{Lhs: []ast.Expr{tmp}, Tok: token.DEFINE, Rhs: []ast.Expr{call}}, host})
 	case "stmt":
 		st := findStmtOf()
 		if _, ok := st.(*ast.ExprStmt); !ok {
@@ -980,6 +1166,9 @@ func expandSite(s inlineSite, files map[string]*parsedFile) bool {
 		simplifyAddr(nb)
 		betaReduce(nb)
 		gs.Call = &ast.CallExpr{Fun: &ast.FuncLit{Type: &ast.FuncType{Params: &ast.FieldList{}}, Body: nb}}
+		if len(bound) > 0 {
+			return replaceStmt(gs, []ast.Stmt{gs})
+		}
 		return true
 	case "value":
 		st := findStmtOf()
@@ -1264,6 +1453,9 @@ func buildInlinedOverlay(c *Ctx, base map[string][]byte) (map[string][]byte, int
 		if expandSite(s, files) {
 			n++
 			changed[s.file] = true
+			if !s.helper.isLit && s.kind != "hoist" {
+				expandedHelpers[s.helper.file+"|"+s.helper.name] = true
+			}
 		}
 	}
 	out := map[string][]byte{}
@@ -1309,6 +1501,114 @@ func buildInlinedOverlay(c *Ctx, base map[string][]byte) (map[string][]byte, int
 // LoadNormalised loads the repository with private helpers expanded (up to
 // three rounds, so helpers of helpers are expanded too). Returns nil when
 // nothing was expanded or the expanded program does not type-check.
+// expandedHelpers: file|name of package-level helpers that had a call expanded during this process.
+var expandedHelpers = map[string]bool{}
+
+// pruneDeadHelpers removes, from the overlay, the declarations of expanded
+// plain functions (no receiver: a method may still be reached through an
+// interface) that nothing refers to any more, together with imports that
+// become unused. Returns the new overlay and the number of functions removed.
+func pruneDeadHelpers(c *Ctx, overlay map[string][]byte) (map[string][]byte, int) {
+	out := map[string][]byte{}
+	for f, src := range overlay {
+		out[f] = src
+	}
+	removed := 0
+	for _, p := range c.Pkgs {
+		if !c.IsRarePkg(p.Types) {
+			continue
+		}
+		refs := map[types.Object]int{}
+		for _, o := range p.TypesInfo.Uses {
+			if f, ok := o.(*types.Func); ok {
+				refs[f.Origin()]++
+			}
+		}
+		for _, file := range p.Syntax {
+			fname := c.Fset.Position(file.Pos()).Filename
+			src, inOverlay := out[fname]
+			if !inOverlay {
+				continue
+			}
+			type span struct{ a, b int }
+			var cuts []span
+			for _, d := range file.Decls {
+				fd, ok := d.(*ast.FuncDecl)
+				if !ok || fd.Recv != nil || fd.Body == nil || fd.Name.IsExported() || fd.Name.Name == "init" || fd.Name.Name == "main" {
+					continue
+				}
+				if !expandedHelpers[fname+"|"+fd.Name.Name] {
+					continue
+				}
+				obj, _ := p.TypesInfo.Defs[fd.Name].(*types.Func)
+				if obj == nil || refs[obj] > 0 {
+					continue
+				}
+				a := c.Fset.Position(fd.Pos()).Offset
+				if fd.Doc != nil {
+					a = c.Fset.Position(fd.Doc.Pos()).Offset
+				}
+				cuts = append(cuts, span{a, c.Fset.Position(fd.End()).Offset})
+			}
+			if len(cuts) == 0 {
+				continue
+			}
+			sort.Slice(cuts, func(i, j int) bool { return cuts[i].a > cuts[j].a })
+			ns := append([]byte{}, src...)
+			for _, ct := range cuts {
+				if ct.b > len(ns) || ct.a > ct.b {
+					continue
+				}
+				ns = append(append([]byte{}, ns[:ct.a]...), ns[ct.b:]...)
+				removed++
+			}
+			out[fname] = ns
+		}
+	}
+	return out, removed
+}
+
+var unusedImportRe = regexp.MustCompile(`([^\s;]+\.go):(\d+):\d+: "([^"]+)" imported( as \S+)? and not used`)
+
+// dropUnusedImports removes, from overlay files, the imports the type checker
+// reported as unused (after dead helpers were cut). Reports whether anything changed.
+func dropUnusedImports(overlay map[string][]byte, msg string) bool {
+	changed := false
+	for _, m := range unusedImportRe.FindAllStringSubmatch(msg, -1) {
+		fname, path := m[1], m[3]
+		src, ok := overlay[fname]
+		if !ok {
+			continue
+		}
+		fset := token.NewFileSet()
+		af, err := parser.ParseFile(fset, fname, src, parser.ParseComments)
+		if err != nil {
+			continue
+		}
+		done := false
+		for _, imp := range af.Imports {
+			if strings.Trim(imp.Path.Value, "\"") != path {
+				continue
+			}
+			if imp.Name != nil {
+				done = astutil.DeleteNamedImport(fset, af, imp.Name.Name, path)
+			} else {
+				done = astutil.DeleteImport(fset, af, path)
+			}
+			break
+		}
+		if !done {
+			continue
+		}
+		var buf bytes.Buffer
+		if err := (&printer.Config{Mode: printer.UseSpaces | printer.TabIndent, Tabwidth: 8}).Fprint(&buf, fset, af); err == nil {
+			overlay[fname] = buf.Bytes()
+			changed = true
+		}
+	}
+	return changed
+}
+
 func LoadNormalised(c *Ctx) (*Ctx, int, error) {
 	overlay := map[string][]byte{}
 	for f, src := range c.Overlay {
@@ -1360,6 +1660,25 @@ func LoadNormalised(c *Ctx) (*Ctx, int, error) {
 	}
 	if total == 0 {
 		return nil, 0, nil
+	}
+	// helpers whose every call was expanded are dead code in this view: drop them, so that rules which
+	// enumerate constructs (panic sites, parse calls ..) see each construct once, where it now executes
+	if pruned, np := pruneDeadHelpers(cur, overlay); np > 0 {
+		var nc *Ctx
+		var err error
+		for try := 0; try < 4; try++ {
+			nc, err = LoadOverlay(c.Repo, c.Config, pruned)
+			if err == nil || !dropUnusedImports(pruned, err.Error()) {
+				break
+			}
+		}
+		if err == nil {
+			cur, overlay = nc, pruned
+		} else if os.Getenv("RARECHECK_DEBUG") != "" {
+			fmt.Fprintln(os.Stderr, "pruned view does not load:", err)
+		}
+	} else if os.Getenv("RARECHECK_DEBUG") != "" {
+		fmt.Fprintln(os.Stderr, "nothing pruned; expanded helpers:", len(expandedHelpers))
 	}
 	if os.Getenv("RARECHECK_DUMP_INLINED") != "" {
 		for f, src := range overlay {
